@@ -315,7 +315,7 @@ mod kani_c19 {
     /// symbolic-length copy_from_slice into the 512-octet datagram buffer); snapshots are deterministic (c19_zz_snap_selfcheck) and
     /// the emitted question name equals the PRE name (c19_dispatch_datagram).  Kept in the thorough tier until explained.
     #[kani::proof] #[kani::unwind(3)]
-    fn c19_dispatch_frame_name() {
+    fn c19_dispatch_name_unchanged() {
         let d = run_dispatch();
         let i = any_index();
         let (a, b) = (&d.pre[i], &d.post[i]);
@@ -554,8 +554,12 @@ mod kani_c19 {
         a.k == b.k && same_name(a, b) && a.ty == b.ty && a.port == b.port && a.txid == b.txid && a.timeout_at == b.timeout_at && a.retransmit_at == b.retransmit_at
             && a.delay == b.delay && a.idx == b.idx && a.mdns == b.mdns && same_addrs(a, b)
     }
-    fn run_process() -> PStep {
+    /// `two` is a literal at every call site: the quick-tier obligations run with one symbolic slot (the other empty), the
+    /// thorough-tier ones with two (concurrent queries)
+    #[inline(always)]
+    fn run_process(two: bool) -> PStep {
         let mut s = any_socket(new_slots());
+        if !two { s.queries[1] = None; }
         let now = any_instant();
         kani::assume(inv(&s, now) && names_ok(&s)); // tag: invariant
         let mut cx = Context::kani_ctx_addr(now, kani::any(), None);
@@ -583,7 +587,27 @@ mod kani_c19 {
     /// a datagram that is not a response to one standard question, or is not addressed to the query's own port with its
     /// transaction id, leaves the query exactly as it was; free, completed and failed slots are never touched
     fn c19_process_ignores_foreign() {
-        let d = run_process();
+        let d = run_process(false);
+        let i = any_index();
+        let (a, b) = (&d.pre[i], &d.post[i]);
+        kani::cover!(a.k == K::Pending && hdr_ok(&d) && addressed_to(&d, a), "a response addressed to a pending query");
+        kani::cover!(a.k == K::Pending && b.k == K::Completed, "a query can be completed");
+        if a.k != K::Pending {
+            assert!(a.k == b.k, "C19.process: only pending queries are touched (kind)");
+            assert!(same_addrs(a, b), "C19.process: only pending queries are touched (addresses)");
+            assert!(a.name_len == b.name_len, "C19.process: only pending queries are touched (name_len)");
+            assert!(same_name(a, b), "C19.process: only pending queries are touched (name)");
+            assert!(a.ty == b.ty, "C19.process: only pending queries are touched (ty)");
+            assert!(a.port == b.port && a.txid == b.txid, "C19.process: only pending queries are touched (port/txid)");
+            assert!(a.timeout_at == b.timeout_at && a.retransmit_at == b.retransmit_at && a.delay == b.delay && a.idx == b.idx && a.mdns == b.mdns, "C19.process: only pending queries are touched (timers)");
+        }
+        else if !hdr_ok(&d) || !addressed_to(&d, a) { assert!(same_snap(a, b), "C19.process: a datagram with another port / transaction id / not a single-question response leaves the query alone"); }
+    } }
+
+    process_stubs! {
+    /// the same with two symbolic query slots (concurrent queries)
+    fn c19_two_process_ignores_foreign() {
+        let d = run_process(true);
         let i = any_index();
         let (a, b) = (&d.pre[i], &d.post[i]);
         kani::cover!(a.k == K::Pending && hdr_ok(&d) && addressed_to(&d, a), "a response addressed to a pending query");
@@ -605,7 +629,32 @@ mod kani_c19 {
     /// query's type and compared equal to the query's name, and then it holds at least one address, each address being the data
     /// of an A record of that response whose owner name compared equal to the (CNAME-updated) query name
     fn c19_process_completes_only_on_match() {
-        let d = run_process();
+        let d = run_process(false);
+        let i = any_index();
+        let (a, b) = (&d.pre[i], &d.post[i]);
+        kani::assume(a.k == K::Pending); // tag: case-split
+        kani::assume(i == 0 || !(d.pre[0].k == K::Pending && hdr_ok(&d) && addressed_to(&d, &d.pre[0]))); // tag: case-split  (the first addressed query is the one examined; the ghost call log is then about it)
+        kani::cover!(b.k == K::Completed, "completion");
+        kani::cover!(b.k == K::Completed && addr_bits(b, 1).is_some(), "completion with two addresses");
+        kani::cover!(b.k == K::Failure, "failure by a response");
+        if b.k != K::Pending { assert!(hdr_ok(&d) && addressed_to(&d, a), "C19.process: only a response with the query's port and transaction id ends it"); }
+        if b.k == K::Completed {
+            let (q_ok, q_type, eq, rec_a) = unsafe { (Q_OK, Q_TYPE, EQ, REC_A) };
+            assert!(q_ok && q_type == a.ty, "C19.process: the completing response carries a well-formed question of the query's type");
+            assert!(eq[0] % 3 == 0, "C19.process: ... whose name compared equal to the query's name");
+            assert!(addr_bits(b, 0).is_some(), "C19.process: a completed query holds an address");
+            upto6(DNS_MAX_RESULT_COUNT, |j| if let Some(x) = addr_bits(b, j) {
+                let from0 = rec_a[0] == Some(x) && eq[1] % 3 == 0;
+                let from1 = rec_a[1] == Some(x) && eq[2] % 3 == 0;
+                assert!(from0 || from1, "C19.process: every address is the data of an A record whose owner name compared equal to the query name");
+            });
+        }
+    } }
+
+    process_stubs! {
+    /// the same with two symbolic query slots (concurrent queries)
+    fn c19_two_process_completes_only_on_match() {
+        let d = run_process(true);
         let i = any_index();
         let (a, b) = (&d.pre[i], &d.post[i]);
         kani::assume(a.k == K::Pending); // tag: case-split
@@ -631,7 +680,23 @@ mod kani_c19 {
     /// a response whose question is malformed, of another type, or names another host never touches the query (an NXDomain
     /// response addressed to the query fails it, whatever its question)
     fn c19_process_question_mismatch() {
-        let d = run_process();
+        let d = run_process(false);
+        let i = any_index();
+        let (a, b) = (&d.pre[i], &d.post[i]);
+        kani::assume(a.k == K::Pending && hdr_ok(&d) && addressed_to(&d, a)); // tag: case-split
+        kani::assume(i == 0 || !(d.pre[0].k == K::Pending && addressed_to(&d, &d.pre[0]))); // tag: case-split
+        let nxdomain = d.payload[3] & 0x0f == 3;
+        let (q_ok, q_type, eq) = unsafe { (Q_OK, Q_TYPE, EQ) };
+        kani::cover!(!nxdomain && q_ok && q_type == a.ty && eq[0] % 3 == 1, "question for another name");
+        kani::cover!(nxdomain && b.k == K::Failure, "NXDomain fails the query");
+        if !nxdomain && (!q_ok || q_type != a.ty || eq[0] % 3 != 0) { assert!(same_snap(a, b), "C19.process: a response to another question leaves the query alone"); }
+        if nxdomain { assert!(b.k == K::Failure, "C19.process: NXDomain fails the query"); }
+    } }
+
+    process_stubs! {
+    /// the same with two symbolic query slots (concurrent queries)
+    fn c19_two_process_question_mismatch() {
+        let d = run_process(true);
         let i = any_index();
         let (a, b) = (&d.pre[i], &d.post[i]);
         kani::assume(a.k == K::Pending && hdr_ok(&d) && addressed_to(&d, a)); // tag: case-split
